@@ -182,8 +182,9 @@ def c08_run(sc, results):
             sig = None
             ca, cb = find_candidate(results, a), find_candidate(results, b)
             nseg = [len([s for s in c["row"].segments if s.positions]) if c else None for c in (ca, cb)]
-            if any(n is not None and n > 1 for n in nseg):
-                sig = "join-uses-first-segment-only"
+            if ca and cb:
+                import codec
+                sig = O.join_union_signature(O.parse_segs(codec.show_segs(ca["row"].segments)), O.parse_segs(codec.show_segs(cb["row"].segments)))
             out.append((f"union of the parts of query {j['QryContigID']} is a valid matching ({len(u)} pairs) but the joined record has {len(j['_pairs'])} pairs; part segments {nseg}",
                         sig, "union"))
     return out
